@@ -190,6 +190,10 @@ def _docs():
                   [Op('*^'), Null('*')], [Note('4', pitch='g'), Note('4', pitch='c'), Note('4', pitch='AA')],
                   [Null('*'), sig('*clefF4', 'CLEF'), Null('*')], [Note('4', pitch='a'), Note('4', pitch='E'), Note('4', pitch='BB')],
                   [sig('*clefC1', 'CLEF'), Null('*'), sig('*clefC4', 'CLEF')], [Note('4', pitch='b'), Note('4', pitch='F', acc='#'), Note('4', pitch='c')],
+                  # the same signature written in both sub-spines (and in the other spine) on one line: each keeps its own clef
+                  [sig('*M3/4', 'TIME_SIGNATURE'), sig('*M3/4', 'TIME_SIGNATURE'), sig('*M3/4', 'TIME_SIGNATURE')],
+                  [Note('4', pitch='e'), Chord((Note('4', pitch='f', acc='#'), Note('4', pitch='a'))), Note('4', pitch='GG')],
+                  [sig('*k[f#]', 'KEY_SIGNATURE'), sig('*k[f#]', 'KEY_SIGNATURE'), Null('*')], [Note('8', pitch='dd'), Note('8', pitch='D'), Note('8', pitch='AA')],
                   [Op('*v'), Op('*v'), Null('*')], [Note('2', pitch='cc'), Note('2', pitch='d')], [Op(T), Op(T)]]))
     # one spine, every clef in turn
     rows = [[H('**kern')]]
